@@ -22,7 +22,7 @@ ASSUMPTIONS = [
     'an unhandled exception in the master = process exit + new master',
 ]
 TRUSTED = ['pbt/fakezk.py', 'pbt/mastersim.py']
-BUDGET = {'quick': 2400, 'thorough': 64000}
+BUDGET = {'quick': 2400, 'thorough': 128000}
 
 PROFILE = {
     'weights': {'restart': 3, 'reboot': 3, 'down': 3, 'up': 3, 'resize': 2,
